@@ -30,6 +30,8 @@ import (
 	"go.uber.org/zap"
 
 	. "github.com/uber/kraken/lib/persistedretry"
+	"github.com/uber/kraken/core"
+	"github.com/uber/kraken/lib/persistedretry/tagreplication"
 	"github.com/uber/kraken/lib/persistedretry/writeback"
 	"github.com/uber/kraken/localdb"
 	"github.com/uber/kraken/utils/log"
@@ -41,6 +43,74 @@ func TestVerifC30(t *testing.T) { verifhlib.MainEnv("C30", c30driver) }
 const c30unit = time.Hour // one logical time unit
 
 var c30dbMu sync.Mutex // goose keeps global state: open databases one at a time
+
+// ---- the two SQLite-backed stores of the anchored code ----
+
+type c30kind struct {
+	name     string
+	table    string
+	k1, k2   string
+	newStore func(db *sqlx.DB) Store
+	newTask  func(id int, delay time.Duration) Task
+	key      func(t Task) (string, bool)
+	age      func(t Task, by time.Duration)
+}
+
+type c30allValid struct{}
+
+func (c30allValid) Valid(tag, addr string) bool { return true }
+
+var c30writeback = &c30kind{
+	name: "writeback", table: "writeback_task", k1: "namespace", k2: "name",
+	newStore: func(db *sqlx.DB) Store { return writeback.NewStore(db) },
+	newTask: func(id int, delay time.Duration) Task {
+		return writeback.NewTask(fmt.Sprintf("a%d", id%2), fmt.Sprintf("b%d", id/2), delay)
+	},
+	key: func(t Task) (string, bool) {
+		w, ok := t.(*writeback.Task)
+		if !ok {
+			return "", false
+		}
+		return w.Namespace + "/" + w.Name, true
+	},
+	age: func(t Task, by time.Duration) {
+		if w, ok := t.(*writeback.Task); ok {
+			w.CreatedAt = w.CreatedAt.Add(-by)
+			if w.LastAttempt.Year() > 1000 {
+				w.LastAttempt = w.LastAttempt.Add(-by)
+			}
+		}
+	},
+}
+
+var c30tagrepl = &c30kind{
+	name: "tagreplication", table: "replicate_tag_task", k1: "destination", k2: "tag",
+	newStore: func(db *sqlx.DB) Store {
+		s, err := tagreplication.NewStore(db, c30allValid{})
+		if err != nil {
+			panic(err)
+		}
+		return s
+	},
+	newTask: func(id int, delay time.Duration) Task {
+		return tagreplication.NewTask(fmt.Sprintf("b%d", id/2), core.DigestFixture(), core.DigestListFixture(2), fmt.Sprintf("a%d", id%2), delay)
+	},
+	key: func(t Task) (string, bool) {
+		w, ok := t.(*tagreplication.Task)
+		if !ok {
+			return "", false
+		}
+		return w.Destination + "/" + w.Tag, true
+	},
+	age: func(t Task, by time.Duration) {
+		if w, ok := t.(*tagreplication.Task); ok {
+			w.CreatedAt = w.CreatedAt.Add(-by)
+			if w.LastAttempt.Year() > 1000 {
+				w.LastAttempt = w.LastAttempt.Add(-by)
+			}
+		}
+	},
+}
 
 // ---- gates ----
 
@@ -70,6 +140,7 @@ type c30env struct {
 	mu   sync.Mutex
 	dead map[int]bool
 	ids  map[string]int
+	kind *c30kind
 }
 
 func (e *c30env) isDead(gen int) bool {
@@ -79,8 +150,8 @@ func (e *c30env) isDead(gen int) bool {
 }
 
 func (e *c30env) taskID(t Task) int {
-	if w, ok := t.(*writeback.Task); ok {
-		if id, ok := e.ids[w.Namespace+"/"+w.Name]; ok {
+	if k, ok := e.kind.key(t); ok {
+		if id, ok := e.ids[k]; ok {
 			return id
 		}
 	}
@@ -264,12 +335,12 @@ func c30or(fs ...func(*c30evt) bool) func(*c30evt) bool {
 	}
 }
 
-func (c *c30case) taskFor(id int, d int) *writeback.Task {
+func (c *c30case) taskFor(id int, d int) Task {
 	delay := time.Duration(0)
 	if d > 0 {
 		delay = time.Duration(d)*c30unit - c30unit/2
 	}
-	return writeback.NewTask(fmt.Sprintf("ns%d", id%2), fmt.Sprintf("blob%d", id/2), delay)
+	return c.env.kind.newTask(id, delay)
 }
 
 func (c *c30case) idle(kind int) int {
@@ -320,6 +391,15 @@ func (c *c30case) settle() {
 		for len(c.q[k]) > 0 && c.idle(k) > 0 {
 			g := c.await(c30gate(0, "Exec", nil))
 			if g == nil {
+				// no Exec within the time limit.  If the task has left the channel, a worker took it
+				// and did not execute it: that is not a scheduling delay but an observation.
+				li, lr := VerifQueueLens(c.mgr)
+				if []int{li, lr}[k] < len(c.q[k]) {
+					c.incon = false
+					c.unexpected++
+					c.q[k] = c.q[k][1:]
+					continue
+				}
 				return
 			}
 			c.takeDeq(g)
@@ -343,8 +423,8 @@ func (c *c30case) openDB() {
 }
 
 type c30rowT struct {
-	Namespace   string    `db:"namespace"`
-	Name        string    `db:"name"`
+	Namespace   string    `db:"k1"`
+	Name        string    `db:"k2"`
 	CreatedAt   time.Time `db:"created_at"`
 	LastAttempt time.Time `db:"last_attempt"`
 	Status      string    `db:"status"`
@@ -353,7 +433,8 @@ type c30rowT struct {
 
 func (c *c30case) rows() []c30rowT {
 	var rs []c30rowT
-	if err := c.db.Select(&rs, `SELECT namespace, name, created_at, last_attempt, status, failures FROM writeback_task`); err != nil {
+	k := c.env.kind
+	if err := c.db.Select(&rs, fmt.Sprintf(`SELECT %s AS k1, %s AS k2, created_at, last_attempt, status, failures FROM %s`, k.k1, k.k2, k.table)); err != nil {
 		panic(err)
 	}
 	return rs
@@ -411,19 +492,15 @@ func (c *c30case) tick(dt int) {
 			if la.Year() > 1000 {
 				la = la.Add(-time.Duration(dt) * c30unit)
 			}
-			if _, err := c.db.Exec(`UPDATE writeback_task SET created_at=?, last_attempt=? WHERE namespace=? AND name=?`, cr, la, r.Namespace, r.Name); err != nil {
+			k := c.env.kind
+			if _, err := c.db.Exec(fmt.Sprintf(`UPDATE %s SET created_at=?, last_attempt=? WHERE %s=? AND %s=?`, k.table, k.k1, k.k2), cr, la, r.Namespace, r.Name); err != nil {
 				panic(err)
 			}
 		}
 	}
 	if c.poll != nil && dt > 0 { // the poller's snapshot lives in memory: the same time passes for it
 		for _, x := range c.poll.snap {
-			if w, ok := x.(*writeback.Task); ok {
-				w.CreatedAt = w.CreatedAt.Add(-time.Duration(dt) * c30unit)
-				if w.LastAttempt.Year() > 1000 {
-					w.LastAttempt = w.LastAttempt.Add(-time.Duration(dt) * c30unit)
-				}
-			}
+			c.env.kind.age(x, time.Duration(dt)*c30unit)
 		}
 	}
 	c.now += dt
@@ -437,7 +514,7 @@ func (c *c30case) start(crashAfter int) {
 	gen := c.gen
 	c.openDB() // a restarted process opens the database file again (localdb.New: migrations)
 	db := c.db
-	st := &c30store{inner: writeback.NewStore(db), env: c.env, gen: gen}
+	st := &c30store{inner: c.env.kind.newStore(db), env: c.env, gen: gen}
 	ex := &c30exec{env: c.env, gen: gen}
 	conf := Config{
 		IncomingBuffer: c.cfg.inbuf, RetryBuffer: c.cfg.rebuf,
@@ -471,7 +548,11 @@ func (c *c30case) start(crashAfter int) {
 		}
 		if g.done == "start" {
 			if g.err != nil {
-				panic(g.err)
+				// NewManager refused to start (the model never does): nothing is alive; what it did to
+				// the table shows in the next observation
+				c.kill()
+				c.emit("OpStart "+verifhlib.Ns(order), "OIllegal")
+				return
 			}
 			c.mgr = g.mgr
 			c.alive, c.closed = true, false
@@ -871,6 +952,9 @@ func (c *c30case) drain() {
 	}
 	c.start(-1)
 	c.observe()
+	if !c.alive {
+		return
+	}
 	for round := 0; round < 2 && !c.incon; round++ {
 		c.tick(c.cfg.ri + 4)
 		c.observe()
@@ -1004,14 +1088,14 @@ func (c *c30case) apply(a c30act, outcome func(int) bool) {
 
 var c30template []byte // a freshly migrated, empty database file (created once by localdb.New)
 
-func c30new(dir string, cfg c30cfg) *c30case {
+func c30new(dir string, cfg c30cfg, kind *c30kind) *c30case {
 	os.MkdirAll(dir, 0o775)
 	if err := os.WriteFile(filepath.Join(dir, "retry.db"), c30template, 0o664); err != nil {
 		panic(err)
 	}
-	env := &c30env{ev: make(chan *c30evt, 4096), dead: map[int]bool{}, ids: map[string]int{}}
+	env := &c30env{ev: make(chan *c30evt, 4096), dead: map[int]bool{}, ids: map[string]int{}, kind: kind}
 	for i := 0; i < 16; i++ {
-		env.ids[fmt.Sprintf("ns%d/blob%d", i%2, i/2)] = i
+		env.ids[fmt.Sprintf("a%d/b%d", i%2, i/2)] = i
 	}
 	c := &c30case{env: env, dir: dir, cfg: cfg, tags: map[string]bool{}}
 	c.openDB()
@@ -1035,8 +1119,8 @@ func (c *c30case) finish(kind string) verifhlib.Case {
 		Sample: map[string]interface{}{"cfg": fmt.Sprintf("%+v", c.cfg), "ops": c.ops, "obs": c.outs}, Incon: c.incon}
 }
 
-func c30script(dir string, cfg c30cfg, acts []c30act, kind string) verifhlib.Case {
-	c := c30new(dir, cfg)
+func c30script(dir string, cfg c30cfg, sk *c30kind, acts []c30act, kind string) verifhlib.Case {
+	c := c30new(dir, cfg, sk)
 	for _, a := range acts {
 		c.apply(a, func(int) bool { return a.ok })
 	}
@@ -1045,8 +1129,8 @@ func c30script(dir string, cfg c30cfg, acts []c30act, kind string) verifhlib.Cas
 }
 
 // c30random draws the next action against the controller's bookkeeping (mostly enabled actions).
-func c30random(dir string, cfg c30cfg, r *verifhlib.Rng, ntask, nsteps int) verifhlib.Case {
-	c := c30new(dir, cfg)
+func c30random(dir string, cfg c30cfg, sk *c30kind, r *verifhlib.Rng, ntask, nsteps int) verifhlib.Case {
+	c := c30new(dir, cfg, sk)
 	atomicAdd := r.Chance(60)
 	atomicPoll := r.Chance(50)
 	outcome := func(int) bool { return r.Chance(45) }
@@ -1077,6 +1161,9 @@ func c30random(dir string, cfg c30cfg, r *verifhlib.Rng, ntask, nsteps int) veri
 			continue
 		}
 		k := r.Intn(100)
+		if i < 5 && r.Chance(60) { // a burst of additions at the start fills the incoming queue
+			k = 0
+		}
 		switch {
 		case k < 26:
 			d := 0
@@ -1124,7 +1211,7 @@ func c30random(dir string, cfg c30cfg, r *verifhlib.Rng, ntask, nsteps int) veri
 		}
 	}
 	c.drain()
-	return c.finish("random")
+	return c.finish("random-" + sk.name)
 }
 
 func c30seeds() (out []struct {
@@ -1208,7 +1295,8 @@ func c30driver(ctx *verifhlib.Ctx) {
 	addJob := func(f func(dir string) verifhlib.Case) { jobs = append(jobs, job{len(jobs), f}) }
 	for _, s := range c30seeds() {
 		s := s
-		addJob(func(dir string) verifhlib.Case { return c30script(dir, s.cfg, s.acts, s.name) })
+		addJob(func(dir string) verifhlib.Case { return c30script(dir, s.cfg, c30writeback, s.acts, s.name) })
+		addJob(func(dir string) verifhlib.Case { return c30script(dir, s.cfg, c30tagrepl, s.acts, s.name+"-tagreplication") })
 		// crash-point sweep: the same history cut by a crash after every prefix
 		step := 1
 		if ctx.Tier != "thorough" {
@@ -1218,19 +1306,29 @@ func c30driver(ctx *verifhlib.Ctx) {
 			k := k
 			addJob(func(dir string) verifhlib.Case {
 				acts := append(append([]c30act{}, s.acts[:k]...), c30act{k: "crash"})
-				return c30script(dir, s.cfg, acts, "crash-sweep")
+				return c30script(dir, s.cfg, c30writeback, acts, "crash-sweep")
 			})
 		}
 	}
 	for i := 0; i < ctx.N; i++ {
 		rr := r.Fork()
-		cfg := c30cfg{rr.Range(1, 2), rr.Range(1, 2), rr.Range(1, 2), rr.Range(1, 2), rr.Intn(3)}
+		one := func() int { // small buffers and few workers make overflow likely
+			if rr.Chance(65) {
+				return 1
+			}
+			return 2
+		}
+		cfg := c30cfg{one(), one(), one(), one(), rr.Intn(3)}
 		ntask := rr.Range(2, 4)
 		nsteps := rr.Range(4, 28)
 		if ctx.Tier == "thorough" {
 			nsteps = rr.Range(4, 45)
 		}
-		addJob(func(dir string) verifhlib.Case { return c30random(dir, cfg, rr, ntask, nsteps) })
+		sk := c30writeback
+		if rr.Chance(30) {
+			sk = c30tagrepl
+		}
+		addJob(func(dir string) verifhlib.Case { return c30random(dir, cfg, sk, rr, ntask, nsteps) })
 	}
 	res := make([]verifhlib.Case, len(jobs))
 	var wg sync.WaitGroup
